@@ -1,8 +1,8 @@
-from ..streams import aero as aero_streams, drag, loads
+from ..streams import aero as aero_streams, drag, loads, beam
 from ..oracles import c04
 
-MODELS = ["Aero", "Drag", "Loads", "Constants"]
-STREAMS = [aero_streams.stream_points_and_mesh, aero_streams.stream_eval_mtx, aero_streams.stream_geometry_and_flow, drag.stream_wave, drag.stream_viscous, loads.stream_weight_cg]
+MODELS = ["Aero", "Drag", "Loads", "Beam", "BeamTables", "Constants"]
+STREAMS = [aero_streams.stream_points_and_mesh, aero_streams.stream_eval_mtx, aero_streams.stream_geometry_and_flow, drag.stream_wave, drag.stream_viscous, loads.stream_weight_cg, beam.stream_fem]
 ORACLES = [c04.oracle_aero, c04.oracle_offplane, c04.oracle_struct, c04.oracle_aerostruct, c04.oracle_geometry, c04.oracle_inertial_loads]
 UNPROVED = ["fem_half_eq_full (clamped-centre full beam under mirror-symmetric loads = half beam clamped at its last node) is validated by the SpatialBeamAlone half/full oracle, not proved",
             "the instantiation of C04_half_solution_extends_to_full with the concrete AIC matrix (symmetry of A from the ring/normal mirror lemmas, zero sideslip for b) is not assembled into one theorem",
